@@ -214,7 +214,8 @@ impl<T: Qcow2IoOps> Qcow2Dev<T> {
                 let cls = HostCluster(host_cluster);
                 let slice_idx = cls.rb_slice_index(info);
 
-                refblock.decrement(slice_idx).unwrap();
+                // fails on an image with inconsistent refcounts
+                refblock.decrement(slice_idx)?;
                 if first_zero && refblock.get(slice_idx).is_zero() {
                     self.free_cluster_offset
                         .fetch_min(host_cluster, Ordering::Relaxed);
@@ -260,7 +261,11 @@ impl<T: Qcow2IoOps> Qcow2Dev<T> {
 
         // if rb becomes update, it has been committed in read map already
         if !slice.is_update() {
-            let off = top_e.get_value() + slice_off as u64;
+            // a corrupted top table entry may hold any offset
+            let off = top_e
+                .get_value()
+                .checked_add(slice_off as u64)
+                .ok_or("add_cache_slice: invalid table offset")?;
             slice.set_offset(Some(off));
 
             if !self.cluster_is_new(off >> info.cluster_bits()).await {
